@@ -210,6 +210,7 @@ class Interp:
         return Arr(x.st, wrap(f(x.a, b.a)))
 
     div_lemma = False
+    perm_as_selector = False
 
     def div_const(self, e, d, w, signed):
         """quotient of e by the constant d (signed: round toward zero) introduced as a fresh
@@ -456,6 +457,24 @@ class Interp:
         if not self.sym:
             raise Unsupported("concrete PRF without given value at %r" % (where,))
         name = "F%s_%s" % ("_".join(str(x) for x in where), "" if who is None else "p%d" % who)
+        if perm_n is not None and self.perm_as_selector and perm_n <= 4:
+            # a valid permutation by construction: one of the n! concrete permutations, chosen by a selector
+            import itertools as _it
+            perms = list(_it.permutations(range(perm_n)))
+            bw = max(1, (len(perms) - 1).bit_length())
+            sel = self.fresh(name + "_sel", bw)
+            if len(perms) < (1 << bw):
+                self.assumptions.append(z3.ULT(sel, z3.BitVecVal(len(perms), bw)))
+            els = []
+            for pos in range(perm_n):
+                e = z3.BitVecVal(perms[-1][pos], 64)
+                for k in range(len(perms) - 2, -1, -1):
+                    e = z3.If(sel == k, z3.BitVecVal(perms[k][pos], 64), e)
+                els.append(e)
+            v = Arr("u64", oarr(els, (perm_n,)))
+            self.prf_memo[kid] = v
+            self.rand_log.append(("prf", where, who, v, int(iv)))
+            return v
         v = self.fresh_value(t, name)
         self.prf_memo[kid] = v
         self.rand_log.append(("prf", where, who, v, int(iv)))
